@@ -256,6 +256,7 @@ class EngineSystem:
         self.rig = Rig()
         self.rig.loop = self.loop
         self.rig.log = self.log
+        self.rig.wid_of = self._wid_of
         self.trace = []
         self.seq = 0
         self.observe_c11 = observe_c11
@@ -302,6 +303,15 @@ class EngineSystem:
     def live_now(self):
         return {s: int(self.rig.live.get(s, 0)) for s in sorted(self.prog["steps"])}
 
+    def _wid_of(self, step, ev):
+        """Worker slot of the running invocation that holds this very event object (-1 if not found)."""
+        for r in _RUNNERS.values():
+            w = r.state.workers.get(step)
+            for ip in (w.in_progress if w is not None else ()):
+                if ip.event is ev:
+                    return ip.worker_id
+        return -1
+
     def queued_now(self):
         out = {s: 0 for s in sorted(self.prog["steps"])}
         for r in _RUNNERS.values():
@@ -319,6 +329,8 @@ class EngineSystem:
             rec["state"] = p_state(runner.state)
             rec["wakeups"] = sorted([[ms(at - self.t0), p_tick(tk)["k"]] for (at, _s, tk) in runner.scheduled_wakeups])
             rec["buffer"] = [p_tick(x)["k"] for x in runner.tick_buffer]
+            # the timer heap in the adapter's own clock (the clock whose value is handed to the reducer as `now`)
+            rec["wake_abs"] = sorted([[ms(at), p_tick(tk)["k"]] for (at, _s, tk) in runner.scheduled_wakeups])
             if self.observe_c11:
                 try:
                     rebuilt = CL.rebuild_state_from_ticks(adapter.init_state, list(adapter.replay()))
